@@ -269,15 +269,15 @@ func field(sc *base.SlotChain, name string) reflect.Value {
 func sortedIDs(sc *base.SlotChain) string {
 	var p, r, s []string
 	for _, x := range field(sc, "statPres").Interface().([]base.StatPrepareSlot) {
-		p = append(p, strconv.Itoa(x.(*pSlot).id))
+		p = append(p, "P"+strconv.Itoa(x.(*pSlot).id))
 	}
 	for _, x := range field(sc, "ruleChecks").Interface().([]base.RuleCheckSlot) {
-		r = append(r, strconv.Itoa(x.(*rSlot).id))
+		r = append(r, "R"+strconv.Itoa(x.(*rSlot).id))
 	}
 	for _, x := range field(sc, "stats").Interface().([]base.StatSlot) {
-		s = append(s, strconv.Itoa(x.(*sSlot).id))
+		s = append(s, "S"+strconv.Itoa(x.(*sSlot).id))
 	}
-	return "p" + vh.List(p) + " r" + vh.List(r) + " s" + vh.List(s)
+	return vh.List(p) + " " + vh.List(r) + " " + vh.List(s)
 }
 
 func named(x interface{ Order() uint32 }) string {
@@ -296,7 +296,7 @@ func globalOrder() string {
 	for _, x := range field(sc, "stats").Interface().([]base.StatSlot) {
 		s = append(s, named(x))
 	}
-	return "p" + vh.List(p) + " r" + vh.List(r) + " s" + vh.List(s)
+	return vh.List(p) + " " + vh.List(r) + " " + vh.List(s)
 }
 
 // ---- ops -------------------------------------------------------------------------------------
@@ -373,7 +373,7 @@ func (it *Interp) Step(t []string, op string) string {
 		if _, ok := it.tids[r.tr]; !ok {
 			it.tids[r.tr] = len(it.tids)
 		}
-		return fmt.Sprintf("c%d t%d", it.cids[r.ctx], it.tids[r.tr])
+		return fmt.Sprintf("ctx %d tr %d", it.cids[r.ctx], it.tids[r.tr])
 	case t[0] == "blockerr" && len(t) == 2:
 		r, ok := it.entries[t[1]]
 		if !ok || r.be == nil {
